@@ -212,7 +212,7 @@ def main():
     build.ensure_scanner()
     chk.rule = ('programs: generated family (feature schemas, multi-schema, packed kinds and inheritance), the exhaustive family of defined-type shapes (every simple type, enumeration, '
                 'select, LIST/SET/BAG/ARRAY of each, nested aggregates, renamed enumerations/selects/simple types and alias chains of length 1-3, aggregates and selects of those, '
-                'unused types), naming collisions, shipped schemas; schema_scanner and exp2cxx on the same file in separate empty directories; state = schema, transition = one '
+                'unused types), naming collisions, entity/enumeration/select names of every length 60-100 (thorough 1-140 and 160, 200, 230), shipped schemas; schema_scanner and exp2cxx on the same file in separate empty directories; state = schema, transition = one '
                 'scanner+generator pair; oracle = equality of the listed and the written file sets, schema file names, file counts')
     chk.assumptions = ['a schema that exp2cxx itself rejects is not judged here', 'the two *_unity_*.h helper headers are not required in the scanner lists']
     progs, decls, ent_decl = all_programs(args.tier)
